@@ -114,7 +114,7 @@ func c04Alphabet() []Req {
 func TestC04(t *testing.T) {
 	r := NewReporter(t)
 	defer r.Done()
-	r.Rule("(a) all request sequences of length <= depth over a hostile alphabet (unaligned / huge offsets and limits, sector reads with huge start/count, listing and mutation on virtual paths and non-directories, unknown opcodes) against a world with generated images, redump + key, 3k3y, CD image; (b) on-disk content: every PARAM.SFO header/index field set to each boundary value, every truncation, TITLE_ID lengths 0..40; region tables with hostile counts and borders; key files of every length 0..40 and non-hex; 3k3y area x file lengths; (c) name families, directories with unresolvable links (loop, mutual, through a file, dangling), a cycle through the parent and names that are not valid UTF-8; each followed by a liveness probe; (d) the same artefacts through make-iso / decrypt; oracle: worker process alive, fresh connection served, no hang, tools exit without a Go panic; distinct by case")
+	r.Rule("(a) all request sequences of length <= depth over a hostile alphabet (unaligned / huge offsets and limits, sector reads with huge start/count, listing and mutation on virtual paths and non-directories, unknown opcodes) and all sequences of length 3-4 over 12 state-carrying requests, against a world with generated images, redump + key, 3k3y, CD image; (b) on-disk content: every PARAM.SFO header/index field set to each boundary value, every truncation, TITLE_ID lengths 0..40; region tables with hostile counts and borders; key files of every length 0..40 and non-hex; 3k3y area x file lengths; (c) name families, directories with unresolvable links (loop, mutual, through a file, dangling), a cycle through the parent and names that are not valid UTF-8; each followed by a liveness probe; (d) the same artefacts through make-iso / decrypt; oracle: worker process alive, fresh connection served, no hang, tools exit without a Go panic; distinct by case")
 	w := c04World(t, r)
 	defer w.Cleanup()
 	alpha := c04Alphabet()
@@ -232,6 +232,36 @@ func TestC04(t *testing.T) {
 		runCase("C04:requests", strings.Join(reqStrings(seq), " ; "), true, seq)
 		if (k+int(r.Seed))%97 == 0 {
 			binSession(strings.Join(reqStrings(seq), " ; "), seq)
+		}
+	}
+	// (a') per-connection state carried from one request to the next: all sequences of length 3 and 4 over the
+	// requests that set, clear or use it (successful, refused and virtual opens, CLOSEFILE, sector / critical /
+	// ordinary reads, directory open and enumeration)
+	stateAlpha := []Req{mkReq(opOpenFile, "/cd.bin"), mkReq(opOpenFile, "/plain/f2049.bin"), mkReq(opOpenFile, "/nope"), mkReq(opOpenFile, "/***PS3***/nosfo"), mkReq(opOpenFile, "/***DVD***/game"),
+		mkReq(opOpenFile, "/CLOSEFILE"), cdReq(0, 1), rdcReq(0, 10), rdReq(5, 10), mkReq(opOpenDir, "/plain"), mkReq(opOpenDir, "/nope"), noargReq(opReadDirEntry)}
+	for L := 3; L <= 4; L++ {
+		tot := 1
+		for i := 0; i < L; i++ {
+			tot *= len(stateAlpha)
+		}
+		for k := 0; k < tot; k++ {
+			idx++
+			if !r.Mine(idx) {
+				continue
+			}
+			if L == 4 && !r.Thorough() && k%3 != 0 {
+				continue
+			}
+			if r.TimeUp() {
+				break
+			}
+			seq := make([]Req, L)
+			x := k
+			for i := L - 1; i >= 0; i-- {
+				seq[i] = stateAlpha[x%len(stateAlpha)]
+				x /= len(stateAlpha)
+			}
+			runCase("C04:state-sequences", strings.Join(reqStrings(seq), " ; "), false, seq)
 		}
 	}
 	idx = (idx/1000 + 1) * 1000
